@@ -44,16 +44,14 @@ def _compatible(a, b, layout):
         return False                      # two settings of the same option
     o = dict(oa, **ob)
     u = dict(ua, **ub)
-    if o.get("discard_trimmed") and (o.get("discard_untrimmed") or u.get("untrimmed_output")):
-        return False                      # every read would be discarded / documented as mutually exclusive use
+    if sum(1 for x in (o.get("discard_trimmed"), o.get("discard_untrimmed"), u.get("untrimmed_output")) if x) > 1:
+        return False                      # "Only one of the --discard-trimmed, --discard-untrimmed and --untrimmed-output options"
     if u.get("demux") and (o.get("discard_trimmed") or u.get("interleaved_out")):
         return False
     if o.get("action") == "retain" and o.get("times", 1) > 1:
         return False                      # rejected by cutadapt: retain cannot be combined with --times
     if o.get("_drop") == "adapters" and (u.get("demux") or u.get("info_file") or u.get("rest_file") or u.get("wildcard_file")):
         return False                      # these describe / route by the R1 adapter
-    if o.get("_drop") and (o.get("discard_trimmed") is None and False):
-        return False
     return True
 
 
@@ -82,4 +80,25 @@ def scenarios(layouts=("single", "paired")):
 
 
 def run(sc, r1, r2, wd, want_json=False):
+    if sc.get("rev"):
+        # every other scenario reads the corpus back to front: the model judges each read on its own, so anything that
+        # depends on what was processed before shows up as a difference
+        r1, r2 = r1[::-1], (r2[::-1] if r2 is not None else None)
     return routing.run_scenario(sc["opts"], sc["outs"], sc["layout"], r1, r2 if sc["layout"] != "single" else None, wd, want_json=want_json)
+
+
+_S = {}
+
+
+def get(k):
+    if "all" not in _S:
+        _S["all"] = scenarios()
+        for i, sc in enumerate(_S["all"]):
+            sc["rev"] = i % 2 == 1
+    return _S["all"][k]
+
+
+def count():
+    if "all" not in _S:
+        _S["all"] = scenarios()
+    return len(_S["all"])
